@@ -1,0 +1,41 @@
+//go:build verif
+
+// Verification contracts for package broker (comment-only; read by /verif/govc).
+// This file contains no executable code.
+// brPos/brLen/brAt are the ghost view of a *bufio.Reader: bytes consumed so far, bytes obtainable,
+// and the byte the underlying stream delivers at an absolute index.
+
+package broker
+
+//@ spec func sigV2At(br *bufio.Reader, p int) bool = brAt(br, p) == 13 && brAt(br, p+1) == 10 && brAt(br, p+2) == 13 && brAt(br, p+3) == 10 && brAt(br, p+4) == 0 && brAt(br, p+5) == 13 && brAt(br, p+6) == 10 && brAt(br, p+7) == 81 && brAt(br, p+8) == 85 && brAt(br, p+9) == 73 && brAt(br, p+10) == 84 && brAt(br, p+11) == 10
+//@ spec func proxyV1At(br *bufio.Reader, p int) bool = brAt(br, p) == 80 && brAt(br, p+1) == 82 && brAt(br, p+2) == 79 && brAt(br, p+3) == 88 && brAt(br, p+4) == 89
+//@ spec func be16At(br *bufio.Reader, p int) int = int(brAt(br, p)) * 256 + int(brAt(br, p+1))
+
+//@ func parseProxyV2
+//@   ensures [C26.v2_consumed_exactly] err == nil ==> brPos(br) == old(brPos(br)) + 16 + be16At(br, old(brPos(br)) + 14)
+//@   ensures [C26.v2_requires_signature] err == nil ==> sigV2At(br, old(brPos(br)))
+//@   ensures [C26.v2_local] err == nil && brAt(br, old(brPos(br)) + 12) % 16 == 0 ==> result0 != nil && result0.Local
+//@   ensures [C26.v2_family_inet] err == nil && brAt(br, old(brPos(br)) + 12) % 16 != 0 && brAt(br, old(brPos(br)) + 13) / 16 == 1 ==> result0 != nil && !result0.Local && result0.SourcePort == be16At(br, old(brPos(br)) + 16 + 8) && result0.DestPort == be16At(br, old(brPos(br)) + 16 + 10)
+//@   ensures [C26.v2_family_inet6] err == nil && brAt(br, old(brPos(br)) + 12) % 16 != 0 && brAt(br, old(brPos(br)) + 13) / 16 == 2 ==> result0 != nil && !result0.Local && result0.SourcePort == be16At(br, old(brPos(br)) + 16 + 32) && result0.DestPort == be16At(br, old(brPos(br)) + 16 + 34)
+//@   ensures [C26.v2_other_family] err == nil && brAt(br, old(brPos(br)) + 12) % 16 != 0 && brAt(br, old(brPos(br)) + 13) / 16 != 1 && brAt(br, old(brPos(br)) + 13) / 16 != 2 ==> result0 == nil
+//@
+//@ func parseProxyV2Inet
+//@   ensures [C26.inet_ports] err == nil ==> len(payload) >= 12 && result0 != nil && !result0.Local && result0.SourcePort == int(be16(payload, 8)) && result0.DestPort == int(be16(payload, 10))
+//@   ensures [C26.inet_short_rejected] len(payload) < 12 ==> err != nil && result0 == nil
+//@ func parseProxyV2Inet6
+//@   ensures [C26.inet6_ports] err == nil ==> len(payload) >= 36 && result0 != nil && !result0.Local && result0.SourcePort == int(be16(payload, 32)) && result0.DestPort == int(be16(payload, 34))
+//@   ensures [C26.inet6_short_rejected] len(payload) < 36 ==> err != nil && result0 == nil
+//@
+//@ func readProxyV1Line
+//@   ensures [C26.v1_line_consumed] err == nil ==> brPos(br) > old(brPos(br)) && brPos(br) - old(brPos(br)) <= 256 && brPos(br) - old(brPos(br)) == len(result0) && brAt(br, brPos(br) - 1) == 10
+//@   ensures [C26.v1_line_first_newline] err == nil ==> forall i int :: old(brPos(br)) <= i && i < brPos(br) - 1 ==> brAt(br, i) != 10
+//@   loop 1 invariant brPos(br) == old(brPos(br)) + len(buf) && len(buf) <= maxLen && cap(buf) >= maxLen && maxLen >= 1
+//@   loop 1 invariant forall i int :: old(brPos(br)) <= i && i < brPos(br) ==> brAt(br, i) != 10
+//@
+//@ func parseProxyHeader
+//@   ensures [C26.non_header_consumes_nothing] !(brLen(br) - old(brPos(br)) >= 12 && sigV2At(br, old(brPos(br)))) && !(brLen(br) - old(brPos(br)) >= 5 && proxyV1At(br, old(brPos(br)))) ==> brPos(br) == old(brPos(br)) && result0 == nil
+//@   ensures [C26.v2_header_consumed] err == nil && brLen(br) - old(brPos(br)) >= 12 && sigV2At(br, old(brPos(br))) ==> brPos(br) == old(brPos(br)) + 16 + be16At(br, old(brPos(br)) + 14)
+//@   ensures [C26.v1_header_consumed_to_newline] err == nil && brLen(br) - old(brPos(br)) >= 5 && proxyV1At(br, old(brPos(br))) ==> brPos(br) > old(brPos(br)) && brAt(br, brPos(br) - 1) == 10 && (forall i int :: old(brPos(br)) <= i && i < brPos(br) - 1 ==> brAt(br, i) != 10)
+//@
+//@ func atoiOrZero
+//@   loop 1 invariant 0 <= i && i <= len(value)
